@@ -127,7 +127,7 @@ def _minimise(pid, overrides, clause, max_exec=250, max_s=150.0):
 
 # ------------------------------------------------------------------ findings
 def load_findings():
-    p = os.path.join(VERIF, 'known_findings.json')
+    p = os.environ.get('VERIF_FINDINGS') or os.path.join(VERIF, 'known_findings.json')
     if not os.path.exists(p):
         return []
     with open(p) as f:
@@ -249,7 +249,7 @@ def run_check(pid, tier, verif_seed, procs, budget_s, max_runs=None, quiet_ok=Fa
         next_run = 0
         fixed_pos = 0
         stop = False
-        deadline = t0 + budget_s
+        deadline = time.time() + budget_s      # the budget is search time; the determinism guard is not charged to it
 
         def submit_more():
             nonlocal next_run, fixed_pos
@@ -343,6 +343,9 @@ def run_check(pid, tier, verif_seed, procs, budget_s, max_runs=None, quiet_ok=Fa
             except Exception:
                 sample_logs = []
     wall = time.time() - t0
+    if agg.runs == 0 and exit_code == 0:
+        print('HARNESS-ERROR no run was executed within the budget (no verdict)')
+        return 2
     write_evidence(pid, mod, tier, verif_seed, agg, wall, guard_msg, len(unknown), sample_logs,
                    len(fixed), fixed_done, procs)
     for ln in lines:
